@@ -18,6 +18,18 @@ __all__ = [
 
 not_loaded = object()
 yaml_default_loader = None
+yaml_default_dumper = None
+yaml_float_regex = re.compile(
+    """^(?:
+        [-+]?(?:[0-9][0-9_]*)\\.[0-9_]*(?:[eE][-+]?[0-9]+)?
+        |[-+]?(?:[0-9][0-9_]*)(?:[eE][-+]?[0-9]+)
+        |\\.[0-9_]+(?:[eE][-+][0-9]+)?
+        |[-+]?[0-9][0-9_]*(?::[0-5]?[0-9])+\\.[0-9_]*
+        |[-+]?\\.(?:inf|Inf|INF)
+        |\\.(?:nan|NaN|NAN))$""",
+    re.X,
+)
+yaml_float_first = "-+0123456789."
 
 
 def load_basic(value):
@@ -63,23 +75,31 @@ def get_yaml_default_loader():
     remove_implicit_resolver(DefaultLoader, "tag:yaml.org,2002:timestamp")
     remove_implicit_resolver(DefaultLoader, "tag:yaml.org,2002:float")
 
-    DefaultLoader.add_implicit_resolver(
-        "tag:yaml.org,2002:float",
-        re.compile(
-            """^(?:
-        [-+]?(?:[0-9][0-9_]*)\\.[0-9_]*(?:[eE][-+]?[0-9]+)?
-        |[-+]?(?:[0-9][0-9_]*)(?:[eE][-+]?[0-9]+)
-        |\\.[0-9_]+(?:[eE][-+][0-9]+)?
-        |[-+]?[0-9][0-9_]*(?::[0-5]?[0-9])+\\.[0-9_]*
-        |[-+]?\\.(?:inf|Inf|INF)
-        |\\.(?:nan|NaN|NAN))$""",
-            re.X,
-        ),
-        list("-+0123456789."),
-    )
+    DefaultLoader.add_implicit_resolver("tag:yaml.org,2002:float", yaml_float_regex, list(yaml_float_first))
 
     yaml_default_loader = DefaultLoader
     return yaml_default_loader
+
+
+def get_yaml_default_dumper():
+    global yaml_default_dumper
+    if yaml_default_dumper:
+        return yaml_default_dumper
+
+    import yaml
+
+    class DefaultDumper(yaml.SafeDumper):
+        pass
+
+    # Strings that the loader resolves as float must be quoted when dumped, thus use the same float resolver
+    DefaultDumper.yaml_implicit_resolvers = {
+        first: [(tag, regexp) for tag, regexp in mappings if tag != "tag:yaml.org,2002:float"]
+        for first, mappings in DefaultDumper.yaml_implicit_resolvers.items()
+    }
+    DefaultDumper.add_implicit_resolver("tag:yaml.org,2002:float", yaml_float_regex, list(yaml_float_first))
+
+    yaml_default_dumper = DefaultDumper
+    return yaml_default_dumper
 
 
 def yaml_load(stream):
@@ -220,7 +240,7 @@ dump_json_kwargs = {
 def yaml_dump(data):
     import yaml
 
-    return yaml.safe_dump(data, **dump_yaml_kwargs)
+    return yaml.dump(data, Dumper=get_yaml_default_dumper(), **dump_yaml_kwargs)
 
 
 def yaml_comments_dump(data, parser):
